@@ -427,6 +427,7 @@ func main() {
 			continue
 		}
 		argGen := &gen{text: text, noExcl: true}
+		batchMode = (row.Cfg.Text + row.Cfg.Threshold) % 3
 		var args []reflect.Value
 		for i := 0; i < m.Type().NumIn(); i++ {
 			args = append(args, argGen.value(m.Type().In(i), ""))
@@ -561,6 +562,10 @@ func lenQuery(rec *wireRec, tunnelled bool) int {
 	return strings.Index(rest, "\r\n--")
 }
 
+// batchMode selects what a batch implementation reports: 0 = results and errors alternate, 1 = every key succeeds,
+// 2 = every key fails (no result at all)
+var batchMode int
+
 // scripted builds what the mock resource returns; batch responses are keyed by the keys the resource RECEIVED
 func scripted(g *gen, t reflect.Type, args []reflect.Value) reflect.Value {
 	if t.Kind() == reflect.Ptr && strings.HasPrefix(t.Elem().Name(), "BatchResponse[") {
@@ -581,7 +586,7 @@ func scripted(g *gen, t reflect.Type, args []reflect.Value) reflect.Value {
 		results.Set(reflect.MakeMap(results.Type()))
 		errs.Set(reflect.MakeMap(errs.Type()))
 		for i, k := range keys {
-			if i%2 == 0 {
+			if (batchMode == 0 && i%2 == 0) || batchMode == 1 {
 				results.SetMapIndex(k, g.value(results.Type().Elem(), ""))
 			} else {
 				st := int32(404)
